@@ -221,6 +221,7 @@ func Dump(ctx context.Context, db graph.Database, driverName string, targets []G
 	if err := removeDumpCheckpoint(options.OutputDir); err != nil {
 		slog.Warn("retriever dump completed but checkpoint cleanup failed", slog.String("error", err.Error()))
 	}
+	verifCrashPoint("checkpoint.removed")
 
 	manifestPath := filepath.Join(options.OutputDir, manifestFileName)
 
